@@ -1,6 +1,6 @@
 \* one line <<"EDGE", json>> per transition with a witness history (VIEW hides hist); run with -workers 1
 CONSTANTS NDev = 1 NPaths = 3 MaxCycles = 2 MaxAppends = 2 PacketSizes = {1, 2, 3} NScripts = 5
-  MaxFaultAt = 0 FIXED = 1 MaxFd = 5 Ghost = TRUE Export = TRUE
+  MaxFaultAt = 0 FIXED = 1 SetRunning = TRUE FIX_SET = 1 MaxFd = 5 Ghost = TRUE Export = TRUE
 SPECIFICATION Spec
 VIEW View
 INVARIANT TypeOK
